@@ -117,10 +117,12 @@ impl Run {
         *self.stats.entry(k.to_string()).or_default() += 1;
     }
     pub fn fail(&mut self, kind: &str, desc: String) {
-        if self.oracle_failures.len() < 200 {
+        // at most 40 failures are kept *per kind* (a flood of one kind must not hide another property's failures)
+        let key = format!("oracle_fail:{kind}");
+        if self.stats.get(&key).copied().unwrap_or(0) < 40 {
             self.oracle_failures.push((kind.to_string(), desc));
         }
-        self.count(&format!("oracle_fail:{kind}"));
+        self.count(&key);
     }
     pub fn write(&self, dir: &str, name: &str) -> std::io::Result<()> {
         std::fs::create_dir_all(dir)?;
